@@ -12,6 +12,11 @@ lean/PW/Model/Effects.lean:
     for x in xs: ...            -> bind may x (alias xs) and the body `2 + number of bindings in the body` times
     statements under if / for / while / try / with              -> the same statements with must = false
 
+Every program has one more parameter than the Python function: the *environment*, standing for the state that outlives
+the call — module-level / class-level names the body uses without binding them, names declared `global` / `nonlocal`
+(rebinding one is a write), and for a function returned by a factory the factory's locals.  Every call hands the
+caller's environment to the callee.
+
 `must` is true only for statements at the top level of the function body (they always execute, so the abstract
 interpreter may replace the binding; everywhere else it only adds to it).  Which expressions may share memory
 with their operands is the *trusted abstraction* of this fragment (listed in VIEW_FUNCS / VIEW_METHODS /
@@ -37,6 +42,9 @@ VIEW_FUNCS = {"asarray", "asanyarray", "ascontiguousarray", "asfortranarray", "a
               "reversed", "zip", "enumerate", "list", "tuple", "check_shape_any_view"}
 VIEW_METHODS = {"reshape", "ravel", "squeeze", "transpose", "swapaxes", "view", "diagonal", "flatten_view", "T", "get",
                 "items", "values", "keys", "__getitem__", "newbyteorder"}
+ENV = "<module and closure state>"
+import builtins as _b
+BUILTIN_NAMES = set(dir(_b))
 MODULES = {"np", "numpy", "vg", "math", "json", "os", "functools", "itertools", "operator", "copy", "ounce", "random"}
 # in-place spellings: function names whose first argument is written / methods that write their receiver
 INPLACE_FUNCS = {"put", "place", "putmask", "copyto", "fill_diagonal", "shuffle", "put_along_axis", "setflags_writeable"}
@@ -188,8 +196,17 @@ class Abstractor:
                     if isinstance(t, ast.Name):
                         containers.add(t.id)
 
+        declared = set()
+        for node in ast.walk(fn.node):
+            if isinstance(node, (ast.Global, ast.Nonlocal)):
+                declared.update(node.names)
+
         def bind(must, target, srcs):
-            if isinstance(target, ast.Name):
+            if isinstance(target, ast.Name) and target.id in declared:
+                # rebinding a module-level / enclosing name: state that outlives the call
+                stmts.append(("write", ENV, "global " + target.id))
+                stmts.append(("bind", False, ENV, srcs))
+            elif isinstance(target, ast.Name):
                 stmts.append(("bind", must, target.id, srcs))
             elif isinstance(target, (ast.Tuple, ast.List)):
                 for t in target.elts:
@@ -227,8 +244,8 @@ class Abstractor:
                     self.ntmp += 1
                     tmp = "<r%d %s>" % (self.ntmp, e.attr)
                     self.tmp_of[id(e)] = tmp
-                    stmts.append(("call", key, [["self"]]))
-                    stmts.append(("bindret", tmp, key, [["self"]]))
+                    stmts.append(("call", key, [["self"], [ENV]]))
+                    stmts.append(("bindret", tmp, key, [["self"], [ENV]]))
             if isinstance(e, ast.NamedExpr) and isinstance(e.target, ast.Name):
                 stmts.append(("bind", False, e.target.id, self.names(e.value, fn)))
             if isinstance(e, (ast.ListComp, ast.GeneratorExp, ast.SetComp, ast.DictComp)):
@@ -283,6 +300,7 @@ class Abstractor:
                         extra += self.names(k.value, fn)
                 if extra:                              # *args / **kwargs: may land at any explicit-argument position
                     args = [sorted(set(a + extra)) if j >= off else a for j, a in enumerate(args)]
+                args = args + [[ENV]]                  # the callee's module-level state is the caller's too
                 stmts.append(("call", key, args))
                 self.ntmp += 1
                 tmp = "<r%d %s>" % (self.ntmp, key)
@@ -361,9 +379,35 @@ class Abstractor:
                 else:
                     stmts.append(("write", "<unknown statement %s>" % type(st).__name__, "untranslated"))
 
+        def stored_names(node, skip=None):
+            out = set()
+            for x in ast.walk(node):
+                if x is skip:
+                    continue
+                if isinstance(x, ast.Name) and isinstance(x.ctx, (ast.Store, ast.Del)):
+                    out.add(x.id)
+                elif isinstance(x, (ast.FunctionDef, ast.ClassDef)) and x is not node:
+                    out.add(x.name)
+                elif isinstance(x, ast.alias):
+                    out.add((x.asname or x.name).split(".")[0])
+            return out
+        local = (set(fn.params) | stored_names(fn.node)) - declared
         if fn.outer is not None:
-            # the closure of a returned inner function: what the factory bound before
+            # the closure of a returned inner function: what the factory bound before -- and it outlives the call: the
+            # factory's locals are state shared by all calls of the returned function
             block([s for s in fn.outer.node.body if not isinstance(s, (ast.FunctionDef, ast.Return))], False)
+            outer_local = stored_names(fn.outer.node, skip=fn.node) - set(fn.outer.params)
+            for nm in sorted(outer_local - local):
+                stmts.append(("bind", False, nm, [ENV]))
+            local |= outer_local | set(fn.outer.params)
+        # names the body uses without binding them: module-level (or class-level) state, shared by all calls
+        free = set()
+        for x in ast.walk(fn.node):
+            if isinstance(x, ast.Name) and isinstance(x.ctx, ast.Load) and x.id not in local and x.id not in MODULES \
+                    and x.id not in BUILTIN_NAMES:
+                free.add(x.id)
+        pre = [("bind", True, nm, [ENV]) for nm in sorted(free)]
+        stmts[:0] = pre
         block(fn.node.body, True)
         if fn.node.name == "__init__" and fn.params:
             stmts.append(("bind", False, "<return>", [fn.params[0]]))      # what the constructed object keeps
@@ -442,7 +486,7 @@ def generate(repo):
     for key in keys:
         fn = ab.fns[key]
         ident = "fx_" + C20.mangle(key.replace("fn:", "fn."))[4:]
-        protected = list(fn.params) + ([p for p in fn.outer.params if p not in fn.params] if fn.outer else [])
+        protected = list(fn.params) + ([p for p in fn.outer.params if p not in fn.params] if fn.outer else []) + [ENV]
         table = {p: i for i, p in enumerate(protected)}
 
         def var(name, table=table):
